@@ -315,7 +315,8 @@ OP_EXPR = {'is': '$a is $b', 'prec': '$a << $b', 'foll': '$a >> $b', 'union': '$
            'lzsub': '(python) node.iter_lazy()', 'descsub': '(python) node.iter_descendants()',
            'reget': '(python) get_node_tree(node, fragment=f)', 'ecmp': '$a (is|<<|>>) $b with one empty operand',
            'eroot': 'root($a) with $a := ()', 'citem': '(python) XPathContext(root, item=node.value).item',
-           'px': 'operator with path operands in an inner focus'}
+           'px': 'operator with path operands in an inner focus',
+           'nav': '(python) node.parent / .children / context.iter_ancestors() / .root_node / descendant-or-self'}
 _tokens: dict = {}
 
 
@@ -579,6 +580,28 @@ def _run_op(root, nodes, op: str) -> str:
             k = int(parts[1])
             ctx = XPathContext(root=root, item=nodes[k].value)
             return str(idx.get(id(ctx.item), '?'))
+        if name == 'nav':
+            # phase 5: the link-reading navigation API on the live objects (no XPath evaluation)
+            n = nodes[int(parts[1])]
+            par = n.parent
+            ctx = XPathContext(root=root, item=n)
+            anc = list(ctx.iter_ancestors())
+            aos = list(ctx.iter_ancestors('ancestor-or-self'))
+            if aos != anc + [n] or ctx.item is not n:
+                _flags.append('!ancestor-or-self')
+            dos = list(ctx.iter_descendants('descendant-or-self'))
+            if [x for x in ctx.iter_descendants('descendant')] != dos[1:] or dos[:1] != [n]:
+                _flags.append('!descendant-axis')
+            has_kids = isinstance(getattr(n, 'children', None), list)   # leaf kinds: None / no attribute
+            kids = list(n.children) if has_kids else []
+            if any(k.parent is not n for k in kids):
+                _flags.append('!child-parent-link')
+            if has_kids and list(ctx.iter_children_or_self()) != kids:
+                _flags.append('!iter_children_or_self')
+            if list(ctx.iter_parent()) != ([] if par is None else [par]):
+                _flags.append('!iter_parent')
+            return (f"{'-' if par is None else idx.get(id(par), '?')},{idxs_str(kids, idx)},{idxs_str(anc, idx)},"
+                    f"{idx.get(id(n.root_node), '?')},{idxs_str(dos, idx)}")
         if name in ('lzsub', 'descsub'):
             n = nodes[int(parts[1])]
             return idxs_str(n.iter_lazy() if name == 'lzsub' else n.iter_descendants(), idx)
@@ -672,7 +695,7 @@ def gen_ops(rng, n: int, count: int, kinds: str = '') -> list[str]:
         return '.'.join(map(str, l)) or '_'
     for _ in range(count):
         name = rng.choice(['is', 'prec', 'foll', 'union', 'inter', 'except', 'inner', 'outer', 'root', 'union',
-                           'prec', 'chain', 'lzsub', 'descsub', 'croot', 'croot', 'cprec', 'cfoll', 'misc'])
+                           'prec', 'chain', 'lzsub', 'descsub', 'croot', 'croot', 'cprec', 'cfoll', 'misc', 'nav', 'nav'])
         if name == 'misc':
             r = rng.random()
             wrapped = [k for k, ch in enumerate(kinds) if ch in 'ECP']
@@ -682,6 +705,10 @@ def gen_ops(rng, n: int, count: int, kinds: str = '') -> list[str]:
                 ops.append('eroot')
             elif wrapped:
                 ops.append(f'citem:{rng.choice(wrapped)}')
+            continue
+        if name == 'nav':
+            # half of the picks on containers (children / descendant blocks), the rest on any node
+            ops.append(f'nav:{rng.choice(containers) if rng.random() < 0.5 else pick()}')
             continue
         if name == 'chain':
             ops.append(f'chain:{s(some(4))}:{s(some(4))}:{s(some(4))}')
@@ -1049,6 +1076,16 @@ def compare(run: Run, cases: list[dict], nops: int = 6, stats: bool = True) -> N
                 st.count('op:' + name)
                 if impl.startswith('ERR'):
                     st.count('op-impl:' + impl)
+                if name == 'nav':
+                    # branch histogram of the link-reading API: kind of the node, length of the ancestor chain,
+                    # number of children, size of the descendant block
+                    nf = s.split(',')
+                    if len(nf) == 5:
+                        cnt = lambda f: 0 if f == '_' else f.count('.') + 1
+                        st.count(f"nav:kind={KIND.get(nodes[int(op.split(':')[1])].node_kind, '?')}")
+                        st.count(f'nav:ancestors={min(cnt(nf[2]), 4)}{"+" if cnt(nf[2]) >= 4 else ""}')
+                        st.count(f'nav:children={min(cnt(nf[1]), 3)}{"+" if cnt(nf[1]) >= 3 else ""}')
+                        st.count(f'nav:descendants={"1" if cnt(nf[4]) == 1 else ("2-4" if cnt(nf[4]) <= 4 else "5+")}')
                 if name == 'px':
                     pp = op.split(':')
                     st.count(f'px:{pp[3]}/{"abs" if pp[4][0].isupper() else "rel"}-{"abs" if pp[5][0].isupper() else "rel"}'
@@ -1272,7 +1309,8 @@ def body(run: Run) -> int:
         'no schema is bound to the tree (schema-defaulted attributes belong to C20)',
         'the wrapped etree is not mutated between building the node tree and reading it',
         'dict keys are unique (NsWF) for the exact-gap / faithful-image theorems; the strict-order theorem needs nothing']
-    run.prove(['EPV.Props.C02'], ['EPV.Spec.XDMTree', 'EPV.Model.Builder', 'EPV.Model.BuilderLoop', 'EPV.Proto'])
+    run.prove(['EPV.Props.C02', 'EPV.Props.C02Nav'],
+              ['EPV.Spec.XDMTree', 'EPV.Spec.XDMNav', 'EPV.Model.Builder', 'EPV.Model.BuilderLoop', 'EPV.Model.BuilderNav', 'EPV.Proto'])
     try:
         if run.replay:
             payload = json.loads(Path(run.replay).read_text())
